@@ -212,3 +212,8 @@ M("tl-auto-swaps-host-port-kw", "C10", "httpcore/_backends/auto.py", "          
 M("tl-auto-drops-local-address", "C10", "httpcore/_backends/auto.py", "            local_address=local_address,\n", "", "C10.R10")
 M("c13-end-stream-on-filtered-headers", "C13,C03", A + "http2.py", "        end_stream = not has_body_headers(request)", "        end_stream = request.stream is None", None)
 M("sup-tunnel-hop-inherits-h2", "C11,C10", A + "http_proxy.py", "            ssl_context=proxy_ssl_context,\n        )\n        self._proxy_origin = proxy_origin\n        self._remote_origin = remote_origin", "            ssl_context=proxy_ssl_context,\n            http2=http2,\n        )\n        self._proxy_origin = proxy_origin\n        self._remote_origin = remote_origin", None)
+M("tl-sync-zero-timeout-blocks", "C16", "httpcore/_backends/sync.py", "            self._sock.settimeout(timeout)\n            return self._sock.recv(max_bytes)", "            self._sock.settimeout(timeout or None)\n            return self._sock.recv(max_bytes)", "C16.R3")
+M("tl-trio-zero-timeout-unbounded", "C16", "httpcore/_backends/trio.py", "        timeout_or_inf = float(\"inf\") if timeout is None else timeout\n        exc_map: ExceptionMapping = {\n            trio.TooSlowError: ReadTimeout,", "        timeout_or_inf = timeout or float(\"inf\")\n        exc_map: ExceptionMapping = {\n            trio.TooSlowError: ReadTimeout,", "C16.R3")
+M("sup-aread-closes", "C17", "httpcore/_models.py", "            self._content = b\"\".join([part async for part in self.aiter_stream()])\n", "            self._content = b\"\".join([part async for part in self.aiter_stream()])\n            await self.aclose()\n", "C17.R5")
+M("sup-trio-sleep-not-awaited", "C20,C18", "httpcore/_backends/trio.py", "        await trio.sleep(seconds)", "        trio.sleep(seconds)", None)
+M("sup-pool-close-not-awaited", "C18", A + "connection_pool.py", "                await connection.aclose()", "                connection.aclose()", None)
